@@ -388,6 +388,8 @@ class ATCBasis:
         assert rads.dtype == np.float64
         assert theta_rlmq.ndim == 3
         assert theta_rlmq.shape[0] == nrad
+        # the C routines index column l * l + m for every shell of the basis
+        assert theta_rlmq.shape[1] >= (int(np.max(self.bas[:, ANG_OF])) + 1) ** 2
         assert theta_rlmq.flags.c_contiguous
         assert theta_rlmq.dtype == np.float64
         assert p_uq.ndim == 2
